@@ -14,6 +14,9 @@ func c13Record(in c13Input, workdir string, tags []string) (Record, *c13Case) {
 	if in.Kind == "fcfile" {
 		return c13FcFile(in, workdir, tags), nil
 	}
+	if in.Kind == "big" {
+		return c13Big(in, workdir, tags), nil
+	}
 	var c *c13Case
 	var panicky string
 	if in.Kind == "slow" && c13T != nil {
@@ -286,7 +289,7 @@ func runC13(o Opts) {
 	nself := map[string]int{}
 	emit := func(in c13Input, tags []string, corpus string) {
 		switch in.Kind {
-		case "hist", "doc", "conc", "slow", "life", "retain", "fcfile":
+		case "hist", "doc", "conc", "slow", "life", "retain", "fcfile", "big":
 			// the real store runs in a worker process: a crash or hang costs this one input only
 			want := corpus == "" && o.Replay == "" && ((in.Kind == "hist" && nself["hist"] < 4) || (in.Kind == "conc" && nself["conc"] < 2) || (in.Kind == "slow" && nself["slow"] < 2) || (in.Kind == "life" && nself["life"] < 2) || (in.Kind == "retain" && nself["retain"] < 2))
 			if pool.skip(in.Kind) {
@@ -392,6 +395,8 @@ func runC13(o Opts) {
 	for i := 0; i < ns; i++ {
 		emit(c13GenSlow(rs, i), nil, "")
 	}
+	// caches around and above 1 MiB over a real FileCache (direct verdicts)
+	c13GenBig(o.Seed, func(in c13Input, tags []string) { emit(in, tags, "") })
 	// hand-written secrets files for the file client
 	rf := NewRand(o.Seed, 1334)
 	c13GenFcFiles(rf, nf, func(in c13Input, tags []string) { emit(in, tags, "") })
